@@ -98,4 +98,149 @@ theorem runInjectors_err_indep : ∀ (l : List Injector) (k : Nat) (fs : List Fi
         | true => rfl
         | false => exact ih (k + 1) fs w w'
 
+/-! ### field-wise reading -/
+
+theorem pad_getElem? : ∀ (n : Nat) (vals : List (Option Inst)) (k : Nat), k < n →
+    (pad n vals)[k]? = some (vals[k]?.join) := by
+  intro n
+  induction n with
+  | zero => intro vals k hk; cases hk
+  | succ n ih =>
+    intro vals k hk
+    cases k with
+    | zero => cases vals <;> simp [pad]
+    | succ k =>
+      have := ih vals.tail k (Nat.lt_of_succ_lt_succ hk)
+      cases vals <;> simpa [pad] using this
+
+/-- a map / data-scope injector that did not fail left in every field what `leafPick` says -/
+theorem leafRun_pick (sc : Bool) (t : TagName) (data : List (Name × Inst)) :
+    ∀ (fs : List Field) (vals : List (Option Inst)), (leafRun sc t data fs vals).2 = false →
+      ∀ (k : Nat) (fld : Field), fs[k]? = some fld →
+        (leafRun sc t data fs vals).1[k]? = some (leafPick t data fld (vals[k]?.join)) := by
+  intro fs
+  induction fs with
+  | nil => intro vals _ k fld hk; simp at hk
+  | cons f fs ih =>
+    intro vals hne k fld hk
+    have hhead : vals.head?.join = vals[0]?.join := by cases vals <;> rfl
+    have htail : ∀ j, vals.tail[j]? = vals[j + 1]? := by intro j; cases vals <;> simp
+    unfold leafRun at hne ⊢
+    cases hp : parseTag (f.raw t) with
+    | none =>
+      rw [hp] at hne
+      simp only at hne ⊢
+      cases k with
+      | zero =>
+        simp at hk; subst hk
+        simp [leafPick, hp, hhead]
+      | succ k =>
+        simp at hk
+        simpa [htail] using ih vals.tail hne k fld hk
+    | some p =>
+      obtain ⟨key, opt⟩ := p
+      rw [hp] at hne
+      simp only at hne ⊢
+      cases hl : lookupData data key with
+      | none =>
+        rw [hl] at hne
+        cases opt with
+        | false => simp at hne
+        | true =>
+          simp only [if_true] at hne ⊢
+          cases k with
+          | zero =>
+            simp at hk; subst hk
+            simp [leafPick, hp, hl, hhead]
+          | succ k =>
+            simp at hk
+            simpa [htail] using ih vals.tail hne k fld hk
+      | some x =>
+        rw [hl] at hne
+        by_cases hx : x = .nil
+        · simp only [hx, if_true] at hne ⊢
+          cases sc with
+          | false => simp at hne
+          | true =>
+            cases opt with
+            | false => simp at hne
+            | true =>
+              simp only [if_true] at hne ⊢
+              cases k with
+              | zero =>
+                simp at hk; subst hk
+                simp [leafPick, hp, hl, hx, hhead]
+              | succ k =>
+                simp at hk
+                simpa [htail] using ih vals.tail hne k fld hk
+        · simp only [hx, if_false] at hne ⊢
+          cases k with
+          | zero =>
+            simp at hk; subst hk
+            simp [leafPick, hp, hl, hx]
+          | succ k =>
+            simp at hk
+            simpa [htail] using ih vals.tail hne k fld hk
+
+mutual
+theorem Injector.run_pick : ∀ (i : Injector) (fs : List Field) (vals : List (Option Inst)),
+    (i.run fs vals).2 = false → ∀ (k : Nat) (fld : Field), fs[k]? = some fld →
+      (i.run fs vals).1[k]? = some (i.pick fld (vals[k]?.join))
+  | .map t data, fs, vals, h, k, fld, hk => by
+    simpa [Injector.run, Injector.pick] using leafRun_pick false t data fs vals (by simpa [Injector.run] using h) k fld hk
+  | .scope t data, fs, vals, h, k, fld, hk => by
+    simpa [Injector.run, Injector.pick] using leafRun_pick true t data fs vals (by simpa [Injector.run] using h) k fld hk
+  | .nop, fs, vals, _, k, fld, hk => by
+    have hlt : k < fs.length := by
+      rcases List.getElem?_eq_some_iff.1 hk with ⟨h, _⟩; exact h
+    simp [Injector.run, Injector.pick, pad_getElem? _ _ _ hlt]
+  | .multi l, fs, vals, h, k, fld, hk => by
+    simpa [Injector.run, Injector.pick] using runMulti_pick l fs vals (by simpa [Injector.run] using h) k fld hk
+theorem runMulti_pick : ∀ (l : List Injector) (fs : List Field) (vals : List (Option Inst)),
+    (runMulti l fs vals).2 = false → ∀ (k : Nat) (fld : Field), fs[k]? = some fld →
+      (runMulti l fs vals).1[k]? = some (pickAll l fld (vals[k]?.join))
+  | [], fs, vals, _, k, fld, hk => by
+    have hlt : k < fs.length := by
+      rcases List.getElem?_eq_some_iff.1 hk with ⟨h, _⟩; exact h
+    simp [runMulti, pickAll, pad_getElem? _ _ _ hlt]
+  | i :: rest, fs, vals, h, k, fld, hk => by
+    have h1 := Injector.run_pick i fs vals
+    unfold runMulti at h ⊢
+    cases hr : i.run fs vals with
+    | mk w b =>
+      rw [hr] at h h1
+      cases b with
+      | true => simp at h
+      | false =>
+        simp only at h ⊢
+        have h2 := runMulti_pick rest fs w h k fld hk
+        rw [h2, h1 rfl k fld hk]
+        simp [pickAll]
+end
+
+/-- all registered injectors passed: every field holds what the field-wise reading says -/
+theorem runInjectors_pick : ∀ (l : List Injector) (j : Nat) (fs : List Field) (vals : List (Option Inst)),
+    (runInjectors j l fs vals).2 = none → ∀ (k : Nat) (fld : Field), fs[k]? = some fld →
+      (runInjectors j l fs vals).1[k]? = some (pickAll l fld (vals[k]?.join)) := by
+  intro l
+  induction l with
+  | nil =>
+    intro j fs vals _ k fld hk
+    have hlt : k < fs.length := by
+      rcases List.getElem?_eq_some_iff.1 hk with ⟨h, _⟩; exact h
+    simp [runInjectors, pickAll, pad_getElem? _ _ _ hlt]
+  | cons i rest ih =>
+    intro j fs vals h k fld hk
+    have h1 := Injector.run_pick i fs vals
+    unfold runInjectors at h ⊢
+    cases hr : i.run fs vals with
+    | mk w b =>
+      rw [hr] at h h1
+      cases b with
+      | true => simp at h
+      | false =>
+        simp only at h ⊢
+        rw [ih (j + 1) fs w h k fld hk, h1 rfl k fld hk]
+        simp [pickAll]
+
 end Goat.DI
